@@ -61,7 +61,7 @@ impl Stats {
     /// keep a sample if there is room, chosen sparsely so that samples come from all over
     /// the workload (every `stride`-th evaluation).
     pub fn sample(&mut self, stride: u64, make: impl FnOnce() -> Value) {
-        if self.samples.len() < self.sample_cap && (self.evaluations % stride.max(1)) == 1 % stride.max(1) {
+        if self.samples.len() < self.sample_cap && (self.samples.is_empty() || self.evaluations % stride.max(1) == 0) {
             self.samples.push(make());
         }
     }
